@@ -208,12 +208,34 @@ def build(shapes):
     return [schema[path_template(sh, i)]["POST"] for i, sh in enumerate(shapes)]
 
 
+PATH_VARIANT = ["asFound"]
+
+
+def detect_path_variant(chk):
+    """Witness of FC02c: is a plain string path parameter considered negatable?"""
+    raw = {"openapi": "3.0.2", "info": {"title": "t", "version": "1"}, "paths": {"/u/{id}": {"get": {
+        "parameters": [{"name": "id", "in": "path", "required": True, "schema": {"type": "string"}},
+                       {"name": "q", "in": "query", "schema": {"type": "integer"}}],
+        "responses": {"200": {"description": "OK"}}}}}}
+    op = schemathesis.openapi.from_dict(raw)["/u/{id}"]["GET"]
+    PATH_VARIANT[0] = "asFound" if H.can_negate_path_parameters(op) else "repaired"
+    chk.variants["can_negate_path_parameters"] = PATH_VARIANT[0]
+    if PATH_VARIANT[0] == "asFound":
+        cfg = GenerationConfig(modes=[GenerationMode.NEGATIVE])
+        cases, stop = draw_real(op.as_strategy(generation_mode=GenerationMode.NEGATIVE, generation_config=cfg), 5, 1)
+        chk.case("witness:string-path", key="GET /u/{id}", nontrivial=True, sample={"outcome": stop or "cases"})
+        if not cases and stop == "reject":
+            diagnose_unsatisfiable(chk, op, {"operation": raw["paths"]["/u/{id}"]["get"], "modes": ["negative"],
+                                             "hypothesis_seed": 1}, stop)
+
+
 def describe(operation):
     """The operation as the Lean model sees it, read back from the real objects (oracle: real `can_negate`)."""
     out = {}
     for loc, container in (("path", "path_parameters"), ("header", "headers"), ("cookie", "cookies"), ("query", "query")):
         props = parameters_to_json_schema(operation, getattr(operation, container))["properties"]
-        out[loc] = [[name, s, bool(can_negate(s))] for name, s in props.items()]
+        out[loc] = [[name, s, bool(can_negate(s)) and not (loc == "path" and PATH_VARIANT[0] == "repaired"
+                                                            and s == {"type": "string"})] for name, s in props.items()]
     out["body"] = [[bool(can_negate(item.as_json_schema(operation))), bool(item.is_required)]
                    for item in (operation.body.items if operation.body else [])]
     return out
@@ -917,6 +939,8 @@ def draw_real(strategy, n, seed_):
         return out, f"error:{type(e).__name__}"  # contradictory generated schema (minLength > maxLength …): not judged
 
 
+WIRE_PANEL = ["a", "0", "-1", "1.5", "true", "null", "ab c", "x" * 12, "é"]
+KF_STRING_PATH = "C02:can_negate_path_parameters:string-only-path-parameters-treated-as-negatable"
 UNIVERSE = [None, True, False, 0, 1, -3, 2.5, "", "a", "ab c", [], [1], ["a", None], {}, {"a": 1}, {"a": "x", "zz": [1]}]
 
 
@@ -950,9 +974,19 @@ def diagnose_unsatisfiable(chk, op, key, impl):
         return
     drv = chk.driver()
     for loc, schema in culprits:
+        rep = {"kind": "real", **key, "location": loc, "schema": schema, "outcome": impl}
+        if loc == "path":
+            # path parameters are always present and always strings on the wire: can any spelling violate the schema?
+            names = list(schema.get("properties", {}))
+            panel = [{n: w for n in names} for w in WIRE_PANEL]
+            outs = drv.batch([("part", {"env": G.lean_env(schema, v), "schema": schema, "value": v}) for v in panel])
+            if all(o["coerced"] is True for o in outs):
+                chk.violation(KF_STRING_PATH, "can_negate_path_parameters treats string-only path parameters as negatable: "
+                              "every mutation fails, every draw is rejected and the operation ends Unsatisfiable although "
+                              "other inputs can be negated", rep)
+                continue
         outs = drv.batch([("valid", {"env": G.lean_env(schema, v), "schema": schema, "instance": v}) for v in UNIVERSE])
         universal = all(o is True for o in outs)
-        rep = {"kind": "real", **key, "location": loc, "schema": schema, "outcome": impl}
         if universal:
             chk.violation(f"C02:can_negate:universal-schema-not-recognised:{loc}",
                           "can_negate (canonicalish(schema) != {}) accepts a schema that every instance satisfies; its "
@@ -1272,6 +1306,7 @@ def run(chk):
     G.selfcheck(chk, chk.budget(150, 1500))
     variant = detect_variants(chk)
     detect_negate_variant(chk)
+    detect_path_variant(chk)
     wire_witness(chk)
     chk.assumptions += [
         "hypothesis-jsonschema: from_schema(s) yields only instances valid for s (hypothesis `drawOK`, positive side); "
